@@ -390,7 +390,7 @@ def time_cases(draw, max_ranks=4):
     case = {
         'ranks': P, 'levels': levels, 'n': n, 'B': draw(S.mat(n)), 'g': draw(S.forcing(n)), 'u0': draw(S.vec(n)), 'num_nodes': draw(st.integers(2, 3)),
         'QI': draw(st.sampled_from(['IE', 'LU', 'MIN-SR-S'])), 'initial_guess': draw(st.sampled_from(['spread', 'copy', 'zero'])), 'dt': draw(st.sampled_from([0.1, 0.25, 0.05])),
-        'restol': draw(st.sampled_from([-1.0, 1e-8, 1e-6])), 'maxiter': draw(st.integers(1, 5)), 'nsweeps': [draw(st.integers(1, 2)) for _ in range(levels - 1)] + [1] if levels > 1 else [draw(st.integers(1, 2))],
+        'restol': draw(st.sampled_from([-1.0, 1e-8, 1e-6])), 'maxiter': draw(st.sampled_from([1, 2, 3, 4, 5, 5, 12, 30])), 'nsweeps': [draw(st.integers(1, 2)) for _ in range(levels - 1)] + [1] if levels > 1 else [draw(st.integers(1, 2))],
         'jac': draw(st.booleans()), 'all_to_done': draw(st.integers(0, 3)) == 0, 'predict': draw(st.sampled_from([None, 'fine_only', 'pfasst_burnin'])),
         'nsteps': P * nblocks - draw(st.integers(0, max(0, P - 1))), 'decisions': draw(st.lists(st.integers(0, 7), max_size=120)), 'seed': draw(st.integers(0, 1000)),
         'policy': draw(st.sampled_from(['random', 'random', 'fifo'])),
@@ -398,6 +398,8 @@ def time_cases(draw, max_ranks=4):
     case['nsteps'] = max(1, case['nsteps'])
     if levels == 1 and not case['jac']:
         case['nsweeps'] = [1]  # controller_MPI asserts one sweep in its Gauss-Seidel (it_coarse) branch: rejected, not compared
+    if case['restol'] < 0:
+        case['maxiter'] = min(case['maxiter'], 5)  # fixed iteration count: keep it cheap
     if draw(st.integers(0, 3)) == 0:
         script = []
         for _ in range(draw(st.integers(1, 3))):
